@@ -220,7 +220,7 @@ func c13Exact(cx *explore.Ctx, q run.Query, got []lang.SemanticToken, body *hcls
 				}
 			}
 			if x.resolves && n == 0 && inZone {
-				add("tokens:missing-reference-steps", "hcl-referenceStep:"+exprPathAt(body, r), fmt.Sprintf("the reference at %s resolves to a collected declaration but none of its steps has a token", fmtRange(r)))
+				add("tokens:missing-reference-steps", "hcl-referenceStep:"+walkClass(exprPathAt(body, r), zoneTypeClass(zones, r)), fmt.Sprintf("the reference at %s resolves to a collected declaration but none of its steps has a token", fmtRange(r)))
 			}
 			if !x.resolves && n > 0 {
 				add("tokens:reference-steps-of-unresolved-reference", "hcl-referenceStep", fmt.Sprintf("the reference at %s resolves to nothing but has %d step tokens", fmtRange(r), n))
@@ -325,6 +325,10 @@ func stepExtents(body *hclsyntax.Body, r hcl.Range, src []byte) []string {
 				return nil
 			}
 			a++
+			// the step is the name, not the blanks the parser tolerates between the dot and the name
+			for a < b && (src[a] == ' ' || src[a] == '\t') {
+				a++
+			}
 		case hcl.TraverseIndex:
 			switch {
 			case src[a] == '[' && src[b-1] == ']':
@@ -344,4 +348,67 @@ func stepExtents(body *hclsyntax.Body, r hcl.Range, src []byte) []string {
 		out = append(out, fmt.Sprintf("%d-%d", a, b))
 	}
 	return out
+}
+
+
+// zoneTypeClass names the kind of type the attribute holding r declares (site class: a collection literal under a
+// primitive type is a different situation from one under a collection type).
+func zoneTypeClass(zones []valueZone, r hcl.Range) string {
+	for _, z := range zones {
+		if z.rng.Start.Byte <= r.Start.Byte && r.End.Byte <= z.rng.End.Byte {
+			var t cty.Type
+			switch c := z.cons.(type) {
+			case schema.AnyExpression:
+				t = c.OfType
+			case schema.LiteralType:
+				t = c.Type
+			default:
+				return strings.TrimPrefix(fmt.Sprintf("%T", z.cons), "schema.")
+			}
+			switch {
+			case t == cty.DynamicPseudoType:
+				return "dynamic"
+			case t.IsPrimitiveType():
+				return "primitive"
+			case t.IsListType() || t.IsSetType() || t.IsTupleType():
+				return "sequence"
+			case t.IsMapType() || t.IsObjectType():
+				return "mapping"
+			}
+			return "other"
+		}
+	}
+	return "?"
+}
+
+
+// walkClass sorts a reference without tokens into one of a few situations: inside a literal that conforms to the
+// declared type (where the token walk certainly goes), or one of the places the type-directed walk is known not to
+// reach although origins are collected there.
+func walkClass(path, typeClass string) string {
+	outer, parent := path, ""
+	if i := strings.Index(path, ">"); i >= 0 {
+		outer, parent = path[:i], path[i+1:]
+	}
+	seqOK := typeClass == "sequence"
+	mapOK := typeClass == "mapping"
+	switch {
+	case typeClass == "dynamic" && (outer == "TupleConsExpr" || outer == "ObjectConsExpr" || outer == "ConditionalExpr"):
+		return "unwalked:collection-literal-under-dynamic-type"
+	case parent == "ParenthesesExpr" || parent == "TemplateWrapExpr":
+		if outer == "ObjectConsExpr" && mapOK {
+			return "object-key"
+		}
+	case outer == "SplatExpr":
+		return "splat"
+	case outer == "IndexExpr":
+		return "index-collection"
+	case outer == "ForExpr":
+		return "for"
+	case outer == "TupleConsExpr" && parent == "" && seqOK, outer == "ObjectConsExpr" && parent == "" && mapOK:
+		return "conforming-literal"
+	case outer == "ConditionalExpr" && (parent == "TupleConsExpr" && seqOK || parent == "ObjectConsExpr" && mapOK):
+		return "conforming-literal-in-conditional"
+	}
+	return "unwalked:literal-kind-does-not-match-declared-type"
 }
